@@ -219,6 +219,30 @@ def r3_reclaim_boundary(ctx, P, D, R="C13.R3"):
                 okr = bool(rets) and all(strip_casts(g.prov_operand(t["args"][0], s))[0] == "param" for s, t in rets)
                 ctx.inst(R, g.path, okr, "in-place upward grow returns the caller's own pointer (same address)",
                          where=g.where(pw.site), site="grow-up same ptr")
+                # the room test: the block grows in place exactly when new.size fits between its start and the chunk's end
+
+                def room(e):
+                    if e[0] != "bin" or e[1] not in ("Le", "Ge"):
+                        return None
+                    lo, hi = (e[2], e[3]) if e[1] == "Le" else (e[3], e[2])
+                    lo, hi = strip_casts(lo), strip_casts(hi)
+                    isp = lambda x: strip_casts(x)[0] == "param" and strip_casts(x)[1] in pps
+                    end = lambda x: expr_mentions(x, lambda y: y[0] == "call" and y[1].split("::")[-1] == "content_end") and \
+                        not expr_mentions(x, lambda y: y[0] == "call" and y[1].split("::")[-1] in ("pos", "remaining"))
+                    # new.size <= content_end - old_ptr
+                    if is_size_of_param(lo, lps[1]) and hi[0] == "bin" and hi[1].startswith("Sub") and end(hi[2]) and isp(hi[3]):
+                        return True
+                    # old_ptr + new.size <= content_end
+                    if lo[0] == "bin" and lo[1].startswith("Add") and end(hi) and \
+                            ((isp(lo[2]) and is_size_of_param(strip_casts(lo[3]), lps[1])) or (isp(lo[3]) and is_size_of_param(strip_casts(lo[2]), lps[1]))):
+                        return True
+                    return None
+                rt, rf = g.cond_edges(room)
+                okroom = g.controlled_by(pw.site, rt, cleanup=False)
+                ctx.inst(R, g.path, okroom, "in-place upward grow is taken exactly when new_layout.size() <= content_end - old_ptr" if okroom else
+                         "the in-place upward grow is not gated by `new_layout.size() <= content_end - old_ptr` (room measured from the "
+                         "block's own start): measuring from the bump position refuses grows that fit (the block moves although it is "
+                         "the newest one) or accepts ones that do not", where=g.where(pw.site), site="grow-up room test")
         ctx.floor(R, "in-place upward grow position writes", done, 1)
 
 
